@@ -96,6 +96,7 @@ class Verdict:
         self.seconds = seconds
         self.model = model
         self.reason = reason
+        self.trace = getattr(ob, "trace", [])
 
 
 def discharge(obligations, timeout_ms=10000, procs=None, use_cvc5=True, cvc5_timeout=20):
